@@ -1308,3 +1308,44 @@ def pending_exits(body):
                 why = "does not reach an exit"
         res.append((bb, k, why))
     return res, inner
+
+
+def infeasible_edges(body):
+    """switch edges that can never be taken because the scrutinee is a local that is only ever assigned
+    aggregates of one variant (e.g. `let x = match .. { A => Some(..), _ => return }; if let Some(..) = x`)."""
+    c = getattr(body, "_infeasible", None)
+    if c is not None:
+        return c
+    out = set()
+    for bb, t in body.terms("switch"):
+        p = op_place(t["discr"])
+        if p is None or p.proj:
+            continue
+        d = single_def(body, p.local)
+        if d is None or d[0] != "assign" or d[3]["k"] != "discr":
+            continue
+        src = Place(d[3]["place"])
+        if src.proj:
+            continue
+        defs = body.defs_of(src.local)
+        if not defs or body.partial_writes(src.local):
+            continue
+        vidx = set()
+        for dd in defs:
+            if dd[0] == "assign" and dd[3]["k"] == "agg" and dd[3].get("agg") == "adt":
+                vidx.add(dd[3]["vidx"])
+            else:
+                vidx = None
+                break
+        if not vidx or len(vidx) != 1:
+            continue
+        v = next(iter(vidx))
+        listed = dict((val, tg) for val, tg in t["targets"])
+        feasible = listed.get(v, t["otherwise"])
+        for val, tg in t["targets"]:
+            if tg != feasible:
+                out.add((bb, tg))
+        if t["otherwise"] != feasible:
+            out.add((bb, t["otherwise"]))
+    body._infeasible = out
+    return out
